@@ -23,6 +23,20 @@ CLAIMED = {
             'floats as reals; templates T1..T4,T8; 2-3 symbolic candles; concrete quantities, fee, leverage; numpy shim / '
             'Decimal helpers as exact +,- ; MARKET fill accepted within the 0.015% routing threshold of the current price',
             TECH),
+    'C03': ('DESIGN.md C03',
+            'Bounded solver-based check: submit/execute/cancel histories on the real Sandbox driver, Order, Position and '
+            'FuturesExchange with symbolic balance, fee, quantities and prices; after every operation z3 proves wallet, position, '
+            'entry price, unrealised PnL and available margin equal to the average-cost margin model and the rejection rule.',
+            'floats as reals; leverage enumerated (1..125 set); histories up to length 4 exhaustive for LIMIT/MARKET kinds plus targeted '
+            'length-5 and two-symbol histories; nlsat fallback for the few nonlinear queries z3 default leaves unknown',
+            TECH),
+    'C04': ('DESIGN.md C04',
+            'Bounded solver-based check: submit/execute/cancel histories on the real Sandbox driver, Order, Position and SpotExchange '
+            'with symbolic balance, fee, quantities, prices; after every operation z3 proves quote/base balances and position size equal '
+            'to the cash-account model, no negative balance, no short, and the exact rejection rule (also after cancellations).',
+            'floats as reals; Decimal helpers as exact +,- (their exactness is a clause of C17); histories up to length 4 exhaustive, '
+            '5-6 targeted (cancel then resubmit)',
+            TECH),
 }
 
 NOT_YET = {}
